@@ -6,13 +6,10 @@ FAMILIES = [
     {"name": "antecom", "family": "antecom", "group": "ante", "driver": "drv_ante", "n_quick": 15000, "n_thorough": 100000, "seeds_thorough": 3},
     {"name": "antetx", "family": "antetx", "group": "ante", "driver": "drv_ante", "n_quick": 1500, "n_thorough": 12000, "seeds_thorough": 3},
 ]
-import os as _os
-if _os.environ.get("VERIF_C19_CUMULATIVE"):
-    # opt-in reproducer of the observation recorded under UNPROVED: two delegations to one validator in ONE
-    # transaction, each below 6.6 % against the state the transaction starts from, together above it
-    # (tag ante.deliver.power.cumulative; replay in known/C19-cumulative-replay.json).  Not part of the default run.
-    FAMILIES.append({"name": "antetx-cumulative", "family": "antetx", "group": "ante", "driver": "drv_ante", "n_quick": 3, "n_thorough": 3,
-                     "args": ["-replay", "cumulative"]})
+# directed reproducer of finding F23 (known_findings.json): two delegations to one validator in ONE transaction, each
+# below 6.6 % against the state the transaction starts from, together above it (tag ante.deliver.power.cumulative)
+FAMILIES.append({"name": "antetx-cumulative", "family": "antetx", "group": "ante", "driver": "drv_ante", "n_quick": 3, "n_thorough": 3,
+                 "args": ["-replay", "cumulative"]})
 CHK_PREDS = ["c19."]
 RULE = ("antefee: the real AdjustGasPriceDecorator.AnteHandle on transactions of 0-4 top-level messages drawn from all 89 message types the app "
         "registers (half of them from the nine floored kinds), each possibly an authz.MsgExec tree of depth <= 3 (10%: <= 6), fee coins around "
